@@ -279,8 +279,32 @@ func checkC05(r *harness.Run) harness.Coverage {
 			}
 		}
 	}
+	// every nesting f(g(x)) and f(g(x), y) of two built-ins (a value that went through two functions in a row:
+	// sum of huge numbers -> to_string, to_number of a malformed numeral -> abs, ...) over documents with extreme
+	// numbers and over string documents that look like numbers, JSON texts or neither
+	extremeDocs := append(univ.Js(`[1e308, 1e308]`, `{"a":[1e308,1e308,-1e308],"b":1e308}`, `{"a":[-1e308,-1e308],"b":-1e-320}`, `[5e-324, 0, -0.0]`, `{"a":[9007199254740993, 1e21],"b":"1e999"}`,
+		`{"a":["1e", "0E", "-3.5e", "1e+", "1.", "-", "e5", "", " 1", "1 ", "0x10", "1_0", "null", "Infinity", "NaN", "١"],"b":"1e"}`, `"1e"`, `"12.25E"`, `"-"`, `"+"`, `"."`, `"1e400"`, `"-1e400"`, `"nan"`, `"0x1p-2"`, `"null"`),
+		hostileDocs[:6]...)
+	var nested int64
+	fnames := model.FunctionNames()
+	var nestTexts []string
+	for _, f := range fnames {
+		for _, g := range fnames {
+			for _, x := range []string{"@", "a", "b"} {
+				nestTexts = append(nestTexts, f+"("+g+"("+x+"))", f+"("+g+"("+x+"), "+x+")", f+"("+x+", "+g+"("+x+"))", f+"(&"+g+"(@), "+x+")", f+"("+x+", &"+g+"(@))", f+"(["+g+"("+x+")])", f+"("+g+"("+x+")[0])", f+"("+x+"[*]."+g+"(@))", f+"({k: "+g+"("+x+")})")
+			}
+		}
+	}
+	harness.Parallel(len(nestTexts), func(wk, i int) {
+		w.begin(wk, "nested calls "+nestTexts[i])
+		_, sn := tryExpr(r, nestTexts[i], extremeDocs, "")
+		w.end(wk)
+		atomic.AddInt64(&nested, 1)
+		atomic.AddInt64(&searches, sn)
+	})
+	r.Note("nested_call_pairs", nested)
 	r.Note("many_argument_calls", manyArgs)
-	r.Evaluations = strs + pumped + gen + searches + stepCalls + manyArgs
+	r.Evaluations = strs + pumped + gen + searches + stepCalls + manyArgs + nested
 	r.Traces = strs + pumped + gen
 	r.States = strs + pumped + gen
 	r.Transitions = strs + pumped + gen + searches
